@@ -383,9 +383,20 @@ namespace nrf52_details
 
     bluetoe::details::uint128_t security_tool_box::create_passkey()
     {
-        const bluetoe::details::uint128_t result{{
-            random_number8(), random_number8(), random_number8()
-        }};
+        // A passkey is a 6 digit decimal number (000000..999999). Draw 20 random bits and
+        // reject everything above 999999, so that every passkey is equally likely.
+        static constexpr std::uint32_t max_passkey = 999999;
+        std::uint32_t passkey;
+
+        do
+        {
+            passkey  = static_cast< std::uint32_t >( random_number8() );
+            passkey |= static_cast< std::uint32_t >( random_number8() ) << 8;
+            passkey |= static_cast< std::uint32_t >( random_number8() & 0x0f ) << 16;
+        } while ( passkey > max_passkey );
+
+        bluetoe::details::uint128_t result{{ 0 }};
+        bluetoe::details::write_32bit( result.data(), passkey );
 
         return result;
     }
